@@ -199,9 +199,11 @@ def _shape_start(f, b, i, e):
     return False, "value `%s` is neither 0 nor add_mod/sub_mod(_, _, N)" % mir.fmt(e, f)
 
 
-def inv1(ctx, prog, cfg):
+def inv1(ctx, prog, cfg, only=None):
     writers = {"size": {}, "start": {}}
     for f in prog.fns.values():
+        if only is not None and f.short not in only:
+            continue
         for b, i, st, is_term in f.positions(False):
             if is_term:
                 if st["k"] == "call" and mir.callee_path(st) in ("<*mut T>::write", "core::ptr::write"):
@@ -253,7 +255,8 @@ def inv1(ctx, prog, cfg):
                 n += 1
                 ctx.check(ok, "INV1", short, "%s value #%d" % (fld, sites.index((b, i, ok, why))), short_loc(prog.fns[short], b, i),
                           "`%s` is stored a value of an unreviewed shape: %s" % (fld, why), why, cfg)
-        ctx.floor("INV1", "stores to " + fld, n, 8 if fld == "size" else 7, cfg)
+        if only is None:
+            ctx.floor("INV1", "stores to " + fld, n, 8 if fld == "size" else 7, cfg)
 
 
 def _agg_size(f, sz):
